@@ -342,12 +342,8 @@ func (d *Discharger) discharge(o *Obligation) {
 				allOK = false
 				r = cr.r
 				termMu.Lock()
-				pp := newPrinter()
-				txt := pp.str(cj[cr.i])
+				txt := shortStr(cj[cr.i], 400)
 				termMu.Unlock()
-				if len(txt) > 400 {
-					txt = txt[:400] + "..."
-				}
 				o.Clause += fmt.Sprintf(" [conjunct %d: %s]", cr.i+1, txt)
 				break
 			}
@@ -723,4 +719,49 @@ func splitGoal(g *Term) []*Term {
 		return []*Term{g}
 	}
 	return rec(g)
+}
+
+// shortStr renders a term as SMT text but stops after budget characters (terms are DAGs: never print them in full as trees).
+func shortStr(t *Term, budget int) string {
+	var sb strings.Builder
+	var rec func(t *Term)
+	rec = func(t *Term) {
+		if sb.Len() > budget {
+			return
+		}
+		switch t.Op {
+		case "const":
+			switch t.Sort {
+			case SInt:
+				sb.WriteString(smtInt(t.Int))
+			case SReal:
+				sb.WriteString(smtRat(t.Rat))
+			default:
+				fmt.Fprint(&sb, t.B)
+			}
+		case "var":
+			sb.WriteString(t.Name)
+		default:
+			sb.WriteString("(")
+			if t.Op == "app" {
+				sb.WriteString(t.Name)
+			} else {
+				sb.WriteString(t.Op)
+			}
+			for _, a := range t.Args {
+				sb.WriteString(" ")
+				rec(a)
+				if sb.Len() > budget {
+					break
+				}
+			}
+			sb.WriteString(")")
+		}
+	}
+	rec(t)
+	s := sb.String()
+	if len(s) > budget {
+		s = s[:budget] + "..."
+	}
+	return s
 }
